@@ -181,7 +181,7 @@ func init() {
 			}
 			return 1
 		},
-		Run: c11SchedRun, Setup: c28Setup,
+		Run: c11SchedRun, Setup: c28Setup, PanicSig: "panic",
 		Assumptions: []string{"scheduling points only at the three seams named in the rule; between two seams a worker runs without interruption (GOMAXPROCS=1, no blocking operation in between except file reads, which complete immediately)",
 			"workers are told apart by goroutine id in order of first appearance, which is their creation order"},
 	})
